@@ -46,15 +46,16 @@ class Exprs:
                     pl = s["pl"]
                     if not pl["p"]:
                         self.defs.setdefault(pl["l"], []).append(("rv", bi, si, s["rv"]))
-                    else:
-                        # partial write: makes the base local opaque
+                    elif pl["p"][0] != "deref":
+                        # partial write: makes the base local opaque (a write through a
+                        # pointer does not change the pointer local itself)
                         self.defs.setdefault(pl["l"], []).append(("partial", bi, si, None))
             t = b["term"]
             if t["k"] == "call":
                 pl = t["dest"]
                 if not pl["p"]:
                     self.defs.setdefault(pl["l"], []).append(("call", bi, None, t))
-                else:
+                elif pl["p"][0] != "deref":
                     self.defs.setdefault(pl["l"], []).append(("partial", bi, None, None))
         self.upvars = func.upvar_names() if func.kind == "closure" else {}
 
